@@ -29,7 +29,14 @@ def viol(ctx, key: str, what: str, witness: dict) -> None:
     seen = ctx.__dict__.setdefault("_ops_seen", {})
     seen[key] = seen.get(key, 0) + 1
     ctx.count(f"violations.{key}")
-    if seen[key] <= 2:
+    known = ctx.__dict__.get("_ops_known")
+    if known is None:
+        from common import load_known_findings
+
+        known = ctx.__dict__["_ops_known"] = [f["match"]["key"] for f in load_known_findings()
+                                              if f.get("status", "known") == "known" and f.get("match", {}).get("unit") == ctx.unit]
+    cap = 1 if any(key.startswith(k) for k in known) else 2  # leave room for classes that are NOT already known
+    if seen[key] <= cap:
         ctx.violation(key, what, witness)
 
 
@@ -324,9 +331,19 @@ def _starts_oracle(ctx, name, mask, sel, B, k, lo, extra=None, branch=""):
                "forced_starts": st}
         if extra:
             wit.update(extra)
-        if name == "op" and f["feasstrong"] != "1":
+        oor = [v for v in st if not (0 <= v < nAct)]
+        if oor:
+            viol(ctx, f"starts-out-of-range:{name}", f"{name}: a forced start is not an action index of the instance (mask width {nAct})",
+                 dict(wit, out_of_range=oor))
+        elif name == "op" and f["feasstrong"] != "1":
             viol(ctx, "starts-infeasible:op:although-some-feasible",
                  "op: a forced start is infeasible for its instance although the instance has a feasible customer", wit)
+        elif f["feasstrong"] != "1" and f["feasok"] == "1":
+            # more starts requested than feasible ones exist (k > #feasible, e.g. num_starts / beam width > num_loc): the
+            # starts necessarily repeat, but each of them must still be admitted by the instance's reset mask
+            viol(ctx, f"starts-infeasible:{name}{branch}:k>feasible",
+                 f"{name}: a forced start is not admitted by the instance's reset mask (more starts than feasible ones requested; "
+                 "the instance does have feasible starts)", wit)
         if f["feasok"] != "1":
             viol(ctx, f"starts-infeasible:{name}{branch}",
                           f"{name}: a forced start is infeasible for its instance although >= k feasible starts exist", wit)
@@ -364,7 +381,15 @@ def check_starts_envs(ctx):
                                                         "model": f["method"]})
             lo = 0 if name in NO_DEPOT else 1
             kmax = min(int(real_k) + 2, 12)
-            for k in range(1, kmax + 1):
+            M = nAct - lo  # number of non-depot actions: sweep beyond it (num_starts / beam width > num_loc)
+            from rl4co.utils.ops import get_num_starts as _generic_num_starts
+
+            ks = set(range(1, kmax + 1)) | {int(real_k), int(_generic_num_starts(td, name))}  # POMO's / SymNCO's default
+            if M <= 20:
+                ks |= {M + 1, 2 * M, 2 * M + 1}
+            else:
+                ks |= {M + 1}
+            for k in sorted(v for v in ks if v >= 1):
                 tseed = ctx.rng.randrange(1 << 30)
                 torch.manual_seed(tseed)
                 try:
@@ -530,6 +555,57 @@ def check_starts_svrp(ctx):
                 _starts_oracle(ctx, "svrp", mask, sel, B, k, 1, extra={"crafted": "node 1 needs the top technician"},
                                branch=":generic-rule" if sel == csv(mf["method"]) else ":other")
                 ctx.case(("starts-svrp", n, B, k))
+
+
+def check_start_hooks(ctx):
+    """the consumers of select_start_nodes / get_num_starts: `DecodingStrategy.pre_decoder_hook` (multistart) and
+    `BeamSearch.pre_decoder_hook` (C13's forced starts) on real environments, with num_starts / beam width below,
+    at and ABOVE the number of customers and left to the default; POMO / SymNCO default num_starts.
+    Every forced first action must be admitted by the reset mask of its own instance (row r ↔ instance r mod B)."""
+    from rl4co.utils.decoding import BeamSearch, Greedy
+    from rl4co.utils.ops import get_num_starts
+
+    torch.manual_seed(ctx.rng.randrange(1 << 30))
+    names = ["tsp", "cvrp", "sdvrp", "pctsp", "cvrptw", "spctsp", "op", "pdp", "mtvrp", "atsp", "svrp"]
+    for name in names:
+        n = ctx.rng.choice([4, 5, 6])
+        try:
+            env = _make_env(name, n)
+        except Exception:  # noqa: BLE001
+            continue
+        B = ctx.rng.choice([2, 3])
+        td0 = env.reset(batch_size=[B])
+        mask = td0["action_mask"]
+        nAct = mask.shape[-1]
+        lo = 0 if name in NO_DEPOT else 1
+        M = nAct - lo
+        for w in [2, M, M + 1, 2 * M + 1, None]:
+            for kind in ("multistart", "beam"):
+                try:
+                    if kind == "multistart":
+                        ds = Greedy(multistart=True, num_starts=w)
+                        td1, _, k = ds.pre_decoder_hook(td0.clone(), env)
+                    else:
+                        ds = BeamSearch(beam_width=w)
+                        td1, _, k = ds.pre_decoder_hook(td0.clone(), env)
+                    sel = ds.actions[0].tolist()
+                except Exception as e:  # noqa: BLE001
+                    # stepping an out-of-range / infeasible forced action may crash inside env.step: judge the selection itself
+                    k = w if w is not None else int(env.get_num_starts(td0))
+                    sel = env.select_start_nodes(td0, k).tolist()
+                    ctx.count(f"hook.{kind}.step-raised")
+                if w is None and int(k) != int(env.get_num_starts(td0)):
+                    ctx.disagreement("default num_starts of the decoding hook", {"env": name, "kind": kind, "k": int(k)})
+                if len(sel) != B * int(k):
+                    viol(ctx, f"hook:{kind}:rows", "pre_decoder_hook did not produce B*k forced actions", {"env": name, "B": B, "k": int(k)})
+                    continue
+                branch = ""
+                if name == "svrp":
+                    mf = parse_fields(ctx.driver.ask(f"ops.starts svrp {B} {int(k)} {env.generator.num_loc} {nAct} {td0['locs'].shape[-2]}"))
+                    branch = ":generic-rule" if sel == csv(mf["method"]) else ":other"
+                _starts_oracle(ctx, name, mask, sel, B, int(k), lo, extra={"via": f"{kind} pre_decoder_hook", "requested": w}, branch=branch)
+                ctx.count(f"hook.{kind}." + ("default" if w is None else ("k>customers" if w > M else "k<=customers")))
+                ctx.case(("hook", name, kind, B, w), nontrivial=True)
 
 
 def check_sample_n(ctx):
@@ -711,6 +787,7 @@ class _StubPolicy(torch.nn.Module):
         if self.perturb is not None:
             rew = self.perturb(inst, aug, start)
         acts = torch.stack([code, code + 0, inst], 1)
+        self.last_num_starts = num_starts
         return {"reward": rew, "log_likelihood": -code.float() + self.p * 0, "actions": acts,
                 "proj_embeddings": torch.zeros(tdx.shape[0], 2, 4)}
 
@@ -746,6 +823,18 @@ def check_users(ctx):
             return table[inst, aug, start] - 7.0
         return f
 
+    # default num_starts (None): POMO asks env.get_num_starts(td), SymNCO the generic get_num_starts(td, env.name)
+    nf = parse_fields(ctx.driver.ask("ops.numstarts tsp 4 4"))
+    for who, cls_, kw, want in (("pomo", POMO, dict(num_augment=1), int(nf["method"])), ("symnco", SymNCO, dict(num_augment=2, augment_fn=_augfn), int(nf["generic"]))):
+        pol0 = _StubPolicy()
+        # SymNCO's constructor cannot take None (`self.num_starts > 1`); its shared_step can
+        m0 = cls_(env, policy=pol0, num_starts=None if who == "pomo" else 2, **kw)
+        m0.num_starts = None
+        m0.log_metrics = lambda out, phase, dataloader_idx=None: {}
+        m0.shared_step(_tag_batch(2), 0, "val")
+        ctx.count(f"{who}.default-num_starts")
+        if pol0.last_num_starts != want:
+            ctx.disagreement(f"{who} default num_starts", {"real": pol0.last_num_starts, "model": want})
     for B, A, S in combos:
         batch = _tag_batch(B)
         # ------------------------------------------------ POMO
@@ -1046,6 +1135,7 @@ def run_c12(ctx):
     check_starts_envs(ctx)
     check_starts_op(ctx)
     check_starts_svrp(ctx)
+    check_start_hooks(ctx)
     check_sample_n(ctx)
     check_select_best(ctx)
     check_gather_default(ctx)
@@ -1554,6 +1644,11 @@ C12_THEOREMS = [
     T("Rl4co.Ops.envRule_table", "proved", "(lo, m) of every environment's select_start_nodes"),
     T("Rl4co.Ops.default_starts_le", "proved", "default num_starts <= #startable for cvrp/pctsp/pdp/tsp/flp"),
     T("Rl4co.Ops.default_starts_gt", "proved", "default num_starts = #startable + 1 for mtvrp/svrp (node 1 forced twice)"),
+    T("Rl4co.Ops.generic_starts_wrap", "proved", "generic depot rule with m = #customers: every forced start is in 1..m for EVERY k (k > num_loc repeats customers)"),
+    T("Rl4co.Ops.mtsp_starts_in_mask_counterexample", "proved", "NOT (mTSP forced starts are action indices): num_loc counts the depot, k = num_loc forces index num_loc"),
+    T("Rl4co.Ops.mtsp_starts_in_mask_partial", "partial", "mTSP: k <= num_loc - 1 (= default) => forced starts are action indices"),
+    T("Rl4co.Ops.smtwtp_starts_in_mask_counterexample", "proved", "NOT (SMTWTP default forced starts are job indices): default k = n+1 forces index n+1"),
+    T("Rl4co.Ops.smtwtp_starts_in_mask_partial", "partial", "SMTWTP: k <= n => forced starts are job indices"),
     T("Rl4co.Ops.op_starts_feasible", "proved", "OP (fixed rule): every forced start is a customer feasible for its own instance whenever it has >= 1 feasible customer"),
     T("Rl4co.Ops.op_starts_distinct", "proved", "OP: >= k feasible customers => the k forced starts are pairwise distinct (the first k feasible ones)"),
     T("Rl4co.Ops.op_starts_eq_generic", "proved", "OP: all customers feasible => identical to the generic depot rule (j mod n) + 1"),
